@@ -324,6 +324,24 @@ pub fn run(ctx: &Ctx, rep: &mut Report) {
         let st = explore(|ch| gen(ch, thorough), |_, c| cases.push(c));
         rep.stats.add(&st);
     }
-    let x: Vec<XCase> = cases.iter().map(|c| build(c, ctx.tier.name())).collect();
+    let mut x: Vec<XCase> = cases.iter().map(|c| build(c, ctx.tier.name())).collect();
+    if ctx.replay.is_none() {
+        // explicit bounds on derived operators: a per-trait bound without `..` replaces the shared bound of the list; a
+        // `..` that is not the last argument still continues; a stop on one field does not reach the later fields
+        for (entry, ex) in [("attr", ""), ("derive", "#[derive(Ex)] ")] {
+            let progs: [(&str, String, &str, &str); 3] = [
+                ("per-trait bound() next to a shared bound the instantiation does not satisfy", format!("{ex}#[derive_ex(Sub(bound()), SubAssign(bound()), Neg(bound()), Add, bound(T: ::core::marker::Copy, ..))] pub struct X<T> {{ pub a: Tag<T>, pub b: Tag<T> }}"), "{ let mk = || X::<String> { a: Tag(::core::marker::PhantomData), b: Tag(::core::marker::PhantomData) }; let _ = &mk() - &mk(); let _ = mk() - &mk(); let _ = -&mk(); let mut y = mk(); y -= &mk(); y -= mk(); format!(\"{};{}\", dxrt::impls!(X<String>: ::core::ops::Add<X<String>>), dxrt::impls!(X<u8>: ::core::ops::Add<X<u8>>)) }", "false;true"),
+                ("bound(.., T: Mk): the default marker is not the last argument", format!("pub trait Mk {{}}\nimpl Mk for Fm {{}}\n{ex}#[derive_ex(Sub, SubAssign, Neg, bound(.., T: Mk))] pub struct X<T, U> {{ pub a: T, pub b: U, pub c: T }}"), "{ let mk = |s: &str| X::<Fm, Fm> { a: Fm::new(s), b: Fm::new(\"u\"), c: Fm::new(\"c\") }; let r = &mk(\"l\") - &mk(\"r\"); let n = -mk(\"n\"); let mut y = mk(\"y\"); y -= &mk(\"z\"); format!(\"{};{};{};{}\", r.a.0, n.b.0, y.c.0, dxrt::impls!(X<u8, Fm>: ::core::ops::Neg)) }", "(l-r);(-u);(c-=c);false"),
+                ("a stopping operator bound on the FIRST field, a parameter field after it", format!("{ex}#[derive_ex(Sub)] pub struct X<T, U> {{ #[derive_ex(Sub(bound()))] pub tag: Tag<T>, pub value: U }}"), "{ let mk = |s: &str| X::<String, Fm> { tag: Tag(::core::marker::PhantomData), value: Fm::new(s) }; let r = &mk(\"l\") - &mk(\"r\"); let q = mk(\"a\") - mk(\"b\"); format!(\"{};{};{}\", r.value.0, q.value.0, dxrt::impls!(X<String, String>: ::core::ops::Sub<X<String, String>>)) }", "(l-r);(a-b);false"),
+            ];
+            for (what, defs, run, expected) in progs {
+                let code = format!("use derive_ex::{{derive_ex, Ex}};\nuse dxrt::Fm;\nuse dxrt::probe::Tag;\n{defs}\npub fn run() -> String {{ {run} }}\n");
+                let mut atoms = BTreeSet::new();
+                atoms.insert(format!("entry={entry}"));
+                atoms.insert(format!("bounds={what}"));
+                x.push(XCase { text: format!("{entry} {defs}"), code, expected: expected.to_string(), atoms, nontrivial: true, detail: json!({"kind": "explicit-bounds", "entry": entry, "what": what, "item": defs}), what: format!("derived operators via {entry}: {what}"), inner: 4, symptom: "operator-result-or-call-trace-differs".into(), must_compile: true });
+            }
+        }
+    }
     run_and_compare(rep, "c08", &x);
 }
